@@ -32,15 +32,24 @@ pub type E2 = B2;
 pub struct P1(pub u32, pub Option<AutoDespawnSignal>);
 impl Drop for P1 { fn drop(&mut self) { emit(json!({"t":"drop","p":self.0})); } }
 
-#[derive(ReactComponent, PartialEq, Debug)]
+/// Values compare equal when they agree modulo 100: a `PartialEq` coarser than identity, so that `set_if_neq` can be given a
+/// value that is equal to the stored one and yet distinguishable from it (it must then neither store nor trigger).
+macro_rules! coarse_eq {
+    ($name:ident) => { impl PartialEq for $name { fn eq(&self, other: &Self) -> bool { self.0 % 100 == other.0 % 100 } } };
+}
+#[derive(ReactComponent, Debug)]
 pub struct C1(pub u32);
-#[derive(ReactComponent, PartialEq, Debug)]
+#[derive(ReactComponent, Debug)]
 pub struct C2(pub u32);
+coarse_eq!(C1);
+coarse_eq!(C2);
 
-#[derive(ReactResource, PartialEq, Debug, Default)]
+#[derive(ReactResource, Debug, Default)]
 pub struct R1(pub u32);
-#[derive(ReactResource, PartialEq, Debug, Default)]
+#[derive(ReactResource, Debug, Default)]
 pub struct R2(pub u32);
+coarse_eq!(R1);
+coarse_eq!(R2);
 
 /// Dropped together with the closure of a harness system: its system state is gone.
 pub struct Canary(pub usize);
